@@ -1,7 +1,7 @@
 """C12 -- Timers fire once, never early, and die with their target (structural clauses)."""
 import re
 from .model import *
-from .facts import Site, op_place, Call
+from .facts import Site, op_place, Call, proj_field_name
 
 EXPLANATION = ("decides necessary structural conditions only: in every one-shot timer body the single effect (send / stop / kill) is dominated by the "
                "completed await of the crate's sleep whose argument is the caller's period, unmodified, and is not in a cycle; send_after's task result is "
@@ -180,6 +180,27 @@ def r5(run, db):
         run.saw(len(f.blocks), f)
         cs = f.calls()
         ctor = [c for c in cs if c.matches(r"time::interval$|Interval::new$|time::interval::interval$|::interval_at$")]
+        own = [(site, s) for site, s in f.aggregates() if (s["rv"].get("adt") or "").endswith("::Interval")]
+        if own and not ctor:
+            # the crate's own drift-free interval (async-std backend): built from the parameter, first deadline = now
+            site, s = own[0]
+            vals = dict(zip(s["rv"]["fields"], s["rv"]["ops"]))
+            okp = any(all(r["k"] == "arg" for r in f.origins(o)) and f.origins(o) for o in vals.values())
+            okn = any(any(r["k"] == "call" and r["call"].matches(r"Instant::now$") for r in f.origins(o)) for o in vals.values())
+            run.check(okp and okn, "builds-interval", "interval() builds the crate's own Interval{period, next_tick: now}", "own Interval not built from (period, now)", f.where())
+            ticks = [g for g in db.crate_fns("ractor") if re.search(r"concurrency::\w+::Interval::tick::\{closure#0\}$", g.id)]
+            run.anchor("own Interval::tick", len(ticks), 1)
+            for g in ticks:
+                st = [(si, x) for si, x in g.stmts() if x["k"] == "assign" and "next_tick" in [proj_field_name(e) for e in x["lhs"][1] if e.startswith("f:")]]
+                adds = [c for c in g.calls() if c.matches(r"AddAssign<\S+>>::add_assign$|ops::AddAssign|Add<\S+>>::add$")]
+                good = False
+                for c in adds:
+                    a = [proj_field_name(e) for r in g.origins(c.args[0]) for e in r.get("proj", []) + r.get("trail", []) if e.startswith("f:")]
+                    b = [proj_field_name(e) for r in g.origins(c.args[1]) for e in r.get("proj", []) + r.get("trail", []) if e.startswith("f:")]
+                    if "next_tick" in a and "dur" in b:
+                        good = True
+                run.check(good, "own-tick-drift-free", "tick() advances the deadline by `next_tick += dur` (previous deadline + period, not now + period)", "tick() does not advance the previous deadline by the period (drift)", g.where())
+            continue
         other = [c for c in cs if c not in ctor]
         mut = [c for c in other if any("Interval" in f.local_ty(op_place(a)[0]) for a in c.args if op_place(a))]
         run.check(len(ctor) == 1, "builds-interval", "interval() builds the runtime's interval timer (%s)" % [c.name for c in ctor], "interval() no longer builds an interval timer", f.where())
